@@ -232,6 +232,9 @@ func opID(op stackage.Operator) string {
 	if op == nil {
 		return "none"
 	}
+	if _, ok := op.(sliceOp); ok {
+		return "uslice"
+	}
 	switch op.String() {
 	case "=":
 		return "Eq"
@@ -261,6 +264,10 @@ func leafTokens(x any) []string {
 		return Tokenize(strconv.FormatBool(tv))
 	case float64:
 		return Tokenize(strconv.FormatFloat(tv, 'g', -1, 64))
+	case *int:
+		if tv == nil {
+			return []string{"~"}
+		}
 	}
 	return []string{fmt.Sprintf("?%T", x)}
 }
@@ -315,7 +322,12 @@ func argInt(arg any) int {
 func init() {
 	evaluators["defrag"] = func(in Node, arg any) any {
 		root, _ := stackage.ConvertStack(BuildNode(in))
-		if m := argInt(arg); m <= 0 {
+		m := argInt(arg)
+		if m >= 1000 { // an error recorded on the root before the call
+			m -= 1000
+			root.SetErr(errUser)
+		}
+		if m <= 0 {
 			root.Defrag()
 		} else {
 			root.Defrag(m)
@@ -340,6 +352,9 @@ func init() {
 				if g.rng.Intn(3) == 0 && run+1 < maxrun {
 					es = append(es, Node{"t": "nil"})
 					run++
+				} else if g.rng.Intn(12) == 0 {
+					es = append(es, Node{"t": "leaf", "ty": "tnil", "v": []any{"~"}})
+					run = 0
 				} else {
 					es = append(es, Node{"t": "leaf", "ty": "str", "v": []any{"e", fmt.Sprint(i % 10)}})
 					run = 0
@@ -373,6 +388,9 @@ func init() {
 					kids[i] = Node{"t": "cnd", "form": g.form(), "kw": []any{"k"}, "op": "Eq", "ex": sub, "paren": false, "nspad": false, "enc": []any{}}
 				}
 			}
+		}
+		if g.rng.Intn(4) == 0 {
+			return root, lim + 1000 // with an error recorded on the root beforehand
 		}
 		return root, lim
 	}
@@ -726,7 +744,7 @@ func (g *treeGen) junk(depth int) Node {
 		case 1:
 			return Node{"t": "leaf", "ty": "int", "v": []any{"7"}}
 		case 2:
-			return Node{"t": "op", "id": []string{"Eq", "Ne", "user", "op0", "emptytext", "nilop"}[g.rng.Intn(6)]}
+			return Node{"t": "op", "id": []string{"Eq", "Ne", "user", "uslice", "op0", "emptytext", "nilop"}[g.rng.Intn(7)]}
 		case 3:
 			return Node{"t": "obj", "o": Node{"t": "leaf", "ty": "*int", "v": []any{}}}
 		case 4:
@@ -843,7 +861,7 @@ func (g *treeGen) eqLeaf() Node {
 				case 3:
 					e[i] = Node{"t": "sl", "arr": false, "ety": "typed", "slack": 0, "e": ints(1 + g.rng.Intn(2))}
 				case 4:
-					e[i] = Node{"t": "st", "a": []any{fmt.Sprint(1 + g.rng.Intn(8))}, "p": []any{"p"}, "c": []any{"c"}}
+					e[i] = Node{"t": "st", "a": []any{fmt.Sprint(1 + g.rng.Intn(8))}, "p": []any{"p"}, "c": []any{"c"}, "sty": "plain"}
 				}
 			}
 		}
@@ -861,9 +879,9 @@ func (g *treeGen) eqLeaf() Node {
 			}
 			return Node{"t": "mpa", "ks": []any{[]any{"k"}, []any{"j"}}, "e": vals}
 		}
-		return Node{"t": "st", "a": []any{fmt.Sprint(1 + g.rng.Intn(8))}, "p": []any{"p"}, "c": []any{"c"}}
+		return Node{"t": "st", "a": []any{fmt.Sprint(1 + g.rng.Intn(8))}, "p": []any{"p"}, "c": []any{"c"}, "sty": "plain"}
 	case 9:
-		return Node{"t": "ptr", "d": 1, "x": Node{"t": "st", "a": []any{"3"}, "p": []any{"r"}, "c": []any{"d"}}}
+		return Node{"t": "ptr", "d": 1, "x": Node{"t": "st", "a": []any{"3"}, "p": []any{"r"}, "c": []any{"d"}, "sty": []string{"plain", "embp", "embx"}[g.rng.Intn(3)]}}
 	}
 	return Node{"t": "leaf", "ty": "str", "v": g.toks(1, 3, []string{"a", "b", "x"})}
 }
@@ -898,6 +916,14 @@ func (g *treeGen) eqStack(depth int) Node {
 	}
 	n["e"] = kids
 	return n
+}
+
+// retype: Stack / Condition -> a text, anything else -> a Condition (Retype of spec/Equal.tla)
+func retype(m map[string]any) Node {
+	if m["t"] == "stk" || m["t"] == "cnd" {
+		return Node{"t": "leaf", "ty": "str", "v": []any{"q"}}
+	}
+	return Node{"t": "cnd", "form": "native", "kw": []any{"k"}, "op": "Eq", "ex": Node{"t": "leaf", "ty": "str", "v": []any{"v"}}, "paren": false, "nspad": false, "enc": []any{}}
 }
 
 // mutate applies one random point mutation somewhere in the description
@@ -985,6 +1011,14 @@ func (g *treeGen) mutate(n map[string]any) {
 			}
 		}
 	case "st":
+		if n["sty"] != "plain" && n["sty"] != nil && g.rng.Intn(3) == 0 { // another struct type
+			if n["sty"] == "embp" {
+				n["sty"] = "embx"
+			} else {
+				n["sty"] = "embp"
+			}
+			return
+		}
 		switch g.rng.Intn(3) {
 		case 0:
 			n["a"] = bump(n["a"])
@@ -994,6 +1028,12 @@ func (g *treeGen) mutate(n map[string]any) {
 			n["p"] = bump(n["p"]) // unexported: must NOT matter
 		}
 	case "cnd":
+		if g.rng.Intn(8) == 0 { // the expression replaced by another sort of value
+			if ex, _ := n["ex"].(map[string]any); ex != nil {
+				n["ex"] = retype(ex)
+				return
+			}
+		}
 		switch g.rng.Intn(6) {
 		case 4: // letter case alone: keywords and operator texts are case sensitive
 			t := anyToks(n["kw"])
@@ -1035,6 +1075,11 @@ func (g *treeGen) mutate(n map[string]any) {
 			}
 		case r == 1 && len(e) > 0:
 			n["e"] = e[1:]
+		case r == 3 && len(e) > 0 && g.rng.Intn(2) == 0: // an element replaced by another sort of value
+			i := g.rng.Intn(len(e))
+			if m, ok := e[i].(map[string]any); ok {
+				e[i] = retype(m)
+			}
 		case r == 2:
 			n["paren"] = !nBool(n, "paren") // must NOT matter
 		case len(e) > 0:
